@@ -347,7 +347,8 @@ pub fn k_mb2hdr_iter_48() {
 // Typed getters: each returns the FIRST tag of its type in walk order and None
 // when absent.  One harness per getter and region length (40 and 48 bytes =
 // up to 3 / 4 tags); tag types symbolic among {wanted, other}, sizes symbolic
-// but valid for the kind (other = information request => sizes 8, 12, 16, ...).
+// but valid for the kind (other = information request => sizes 8, 12, 16, ...;
+// for the information-request getter other = module alignment).
 // Bounded by the region length; all contents.
 macro_rules! getter_body {
     ($n:expr, $getter:ident, $wanted:expr, $other:expr, $t:ident, $b:ident, $off:ident, $extra:block) => {{
@@ -373,7 +374,7 @@ macro_rules! getter_body {
 #[kani::proof]
 #[kani::unwind(6)]
 pub fn k_mb2hdr_get_inforeq_40() {
-    let (w, exp) = getter_body!(40, information_request_tag, 1, 3, t, b, off, {
+    let (w, exp) = getter_body!(40, information_request_tag, 1, 6, t, b, off, {
         assert!(t.requests().len() == (le32(b, off + 4) as usize - 8) / 4);
         assert!(t.requests().as_ptr().cast::<u8>() == b[off + 8..].as_ptr());
     });
@@ -385,7 +386,7 @@ pub fn k_mb2hdr_get_inforeq_40() {
 #[kani::proof]
 #[kani::unwind(6)]
 pub fn k_mb2hdr_get_inforeq_48() {
-    let (w, exp) = getter_body!(48, information_request_tag, 1, 3, t, b, off, {
+    let (w, exp) = getter_body!(48, information_request_tag, 1, 6, t, b, off, {
         assert!(t.requests().len() == (le32(b, off + 4) as usize - 8) / 4);
         assert!(t.requests().as_ptr().cast::<u8>() == b[off + 8..].as_ptr());
     });
